@@ -112,6 +112,11 @@ def corpus(kind, spec, canary, dtd_path, port, rng):
     add('xinclude-xml', '', None, None, elem='<xi:include xmlns:xi="http://www.w3.org/2001/XInclude" href="%s"/>' % dtd_path,
         positions=('elem',))
     add('internal-entity', '<!DOCTYPE r [<!ENTITY x "%s">]>' % repl, '&x;', '&x;', marker_text=repl)
+    # the reference between literal text (the element then has leading text AND an entity child node), and repeated
+    add('internal-entity-mid', '<!DOCTYPE r [<!ENTITY x "%s">]>' % repl, 'pre&x;post', 'pre&x;post', marker_text=repl)
+    add('internal-entity-ws', '<!DOCTYPE r [<!ENTITY x "%s">]>' % repl, ' &x; ', None, marker_text=repl, positions=('text',))
+    add('internal-entity-twice', '<!DOCTYPE r [<!ENTITY x "%s">]>' % repl, 'a&x;b&x;c', None, marker_text=repl, positions=('text',))
+    add('ext-general-file-mid', '<!DOCTYPE r [<!ENTITY x SYSTEM "file://%s">]>' % canary, 'pre&x;post', None, marker_text='CANARYCONTENT', positions=('text',))
     add('internal-entity-nested', '<!DOCTYPE r [<!ENTITY y "%s"><!ENTITY x "a&y;b">]>' % repl, '&x;', '&x;', marker_text=repl)
     add('doctype-only', '<!DOCTYPE r>', 'plain', 'plain', positions=('text',))
     add('pi-stylesheet', '<?xml-stylesheet href="file://%s" type="text/xsl"?>' % canary, 'plain', None, positions=('text',))
